@@ -16,9 +16,25 @@ def classify(f, src=""):
     if v == "not-utf8": return None
     key = C.failure_key(v)
     if key.startswith("impl-failure:crash:"):
-        # a signal has no site: split the class by the only feature known to matter so far
-        key += ":print" if ("print!" in src or "format!" in src) else ":noprint"
+        # a signal has no site.  The listed class is "formatting an aggregate": the crash must disappear
+        # when the arguments of every print!/format!/eprint! are replaced by an empty string
+        key += ":print" if ("print!" in src or "format!" in src) and crash_is_formatting(src) else ":noprint"
     return key
+
+
+_FMT_CACHE = {}
+
+
+def crash_is_formatting(src):
+    import re, tempfile
+    if src in _FMT_CACHE: return _FMT_CACHE[src]
+    stripped = re.sub(r"\b(print|eprint|format|dbg|panic)!\((?:[^()\"]|\"(?:\\.|[^\"\\])*\"|\((?:[^()\"]|\"(?:\\.|[^\"\\])*\")*\))*\)", lambda m: m.group(1) + '!("")', src)
+    res = False
+    if stripped != src:
+        f = C.run_harness("ir", [("s", stripped)], os.path.join(C.CACHE, "work", "C02", "strip"), jobs=1, timeout=120).get("s", ["missing"])
+        res = not f[0].startswith("crash")
+    _FMT_CACHE[src] = res
+    return res
 
 
 def run(tier):
